@@ -96,7 +96,15 @@ class ExprMixin(object):
                         raise AnalysisError("E5.global", "mutated at module level")
                     return Const(self.ce.eval(r[1], r[2], "E5.global"))
                 except AnalysisError:
-                    # a computed table: abstractly run the module's import-time initialisation
+                    # a computed table: the reified result of the module's abstract initialisation
+                    # when every key and value is a constant ...
+                    dn0 = self.ce._defname(defmod, r[2])
+                    if dn0:
+                        try:
+                            return Const(self.ce.table(defmod.name, dn0, "E5.global"))
+                        except AnalysisError:
+                            pass
+                    # ... else the abstract object itself
                     menv_ref = self.module_env(st, defmod)
                     menv = st.heap[menv_ref.id]
                     dn = self.ce._defname(defmod, r[2])
@@ -215,6 +223,17 @@ class ExprMixin(object):
                 return wrap_const(self.ce.eval(cm, cnode, "E5.classattr"))
             raise AnalysisError("E5.attr", "class attribute %s" % name, node, module)
         if isinstance(base, ExtVal):
+            if base.dotted.startswith("cvss.") and base.dotted[5:] in self.repo.modules:
+                tm = self.repo.modules[base.dotted[5:]]
+                r = self.repo.resolve_global(tm, name)
+                if r and r[0] == "value":
+                    dn = self.ce._defname(r[1], r[2])
+                    self.ce.consulted.add((r[1].name, dn))
+                    return Const(self.ce.table(r[1].name, dn, "E5.import") if dn else self.ce.eval(r[1], r[2], "E5.import"))
+                if r and r[0] == "func":
+                    return FuncVal(r[1], None)
+                if r and r[0] == "class":
+                    return ClassVal(r[1])
             return ExtVal(base.dotted + "." + name)
         if isinstance(base, Opaque) and not base.is_str:
             # attribute of an unknown object (e.g. the other operand of ==): opaque, but callable
